@@ -95,6 +95,38 @@ func report(g *Gen, p *PropConfig, bl *Baseline, out *CheckOutcome, tier string,
 		}
 	}
 	sort.Strings(missing)
+	// A claimed "before <callee> assert" obligation that is no longer generated: the call site it was
+	// attached to changed.  If the same hint now appears under another call text and is discharged, it
+	// was only renamed; otherwise the contract no longer holds at (or no longer reaches) that site.
+	type lostHint struct{ id, repl string }
+	var lostHints []lostHint
+	for _, id := range missing {
+		i := strings.Index(id, "/hint:")
+		if i < 0 {
+			continue
+		}
+		rest := id[i+len("/hint:"):]
+		j := strings.Index(rest, ":")
+		if j < 0 {
+			continue
+		}
+		prefix := id[:i+len("/hint:")+j+1]
+		found, bad := false, ""
+		for _, r := range out.Results {
+			if !r.Cover && !bl.Claimed[r.ID] && strings.HasPrefix(r.ID, prefix) {
+				found = true
+				if r.Answer != "unsat" && bad == "" {
+					bad = r.ID
+				}
+			}
+		}
+		if _, isKnown := known[id]; isKnown {
+			continue
+		}
+		if !found || bad != "" {
+			lostHints = append(lostHints, lostHint{id, bad})
+		}
+	}
 	undecided := ""
 	var errFuncs []string
 	for f, e := range out.FuncErrs {
@@ -156,6 +188,27 @@ func report(g *Gen, p *PropConfig, bl *Baseline, out *CheckOutcome, tier string,
 		vioLines = append(vioLines, line)
 	}
 
+	for _, lh := range lostHints {
+		fn := lh.id[:strings.Index(lh.id, "/hint:")]
+		if _, broken := out.FuncErrs[fn]; broken {
+			continue
+		}
+		os.MkdirAll(replayDir, 0o755)
+		path := filepath.Join(replayDir, sanitize(lh.id)+"_lost.txt")
+		msg := fmt.Sprintf("property: %s\nobligation: %s\nstatus: this obligation ('before <callee> assert ...' in the contract) was discharged on the unchanged tree; ", p.ID, lh.id)
+		if lh.repl != "" {
+			msg += "the call it is attached to changed and the assertion is no longer provable there: " + lh.repl + "\n"
+			for _, r := range out.Results {
+				if r.ID == lh.repl {
+					msg += fmt.Sprintf("clause: %s\nsolver answer: %s (%s)\n---- solver output ----\n%s\n", r.Desc, r.Answer, r.Solver, r.Output)
+				}
+			}
+		} else {
+			msg += "the call it is attached to is gone from the function, so the contract no longer applies to this code\n"
+		}
+		os.WriteFile(path, []byte(msg), 0o644)
+		vioLines = append(vioLines, fmt.Sprintf("VIOLATION property=%s replay=%s obligation=%s no-failing-input-found", p.ID, path, lh.id))
+	}
 	for _, f := range brokenFuncs {
 		os.MkdirAll(replayDir, 0o755)
 		path := filepath.Join(replayDir, sanitize(f)+"_contract.txt")
